@@ -3,6 +3,7 @@ package rules
 import (
 	"fmt"
 	"go/ast"
+	"go/constant"
 	"go/parser"
 	"go/token"
 	"go/types"
@@ -2110,45 +2111,7 @@ func E4ForcedBreakDeactivates(c *core.Ctx, r *core.Report) {
 		r.Fail("E4.forced-break-deactivates", key, c.Pos(fd.Pos()), "the loop over the active nodes was not found")
 		return
 	}
-	env := func(e ast.Expr) tri {
-		be, ok := e.(*ast.BinaryExpr)
-		if !ok {
-			return tUnknown
-		}
-		x, y := squash(types.ExprString(be.X)), squash(types.ExprString(be.Y))
-		isPen := func(s string) bool { return strings.HasSuffix(s, ".Penalty") }
-		isNegInf := func(s string) bool { return s == "-Infinity" }
-		switch be.Op {
-		case token.EQL, token.NEQ:
-			if (strings.HasSuffix(x, ".Type") && y == "PenaltyType") || (strings.HasSuffix(y, ".Type") && x == "PenaltyType") {
-				return triOf(be.Op == token.EQL)
-			}
-		case token.LEQ:
-			if isPen(x) && isNegInf(y) {
-				return tTrue
-			}
-			if isPen(y) { // K <= item.Penalty with K >= 0 or K == -Infinity
-				if isNegInf(x) {
-					return tTrue
-				}
-				if f, ok := constantFloat(core.ConstVal(info, be.X)); ok && f >= 0 {
-					return tFalse
-				}
-			}
-		case token.LSS:
-			if isNegInf(x) && isPen(y) {
-				return tFalse
-			}
-			if isPen(x) && isNegInf(y) {
-				return tFalse
-			}
-		case token.GEQ:
-			if isNegInf(x) && isPen(y) {
-				return tTrue
-			}
-		}
-		return tUnknown
-	}
+	env := forcedBreakEnv(info)
 	removes := func(st ast.Stmt) bool {
 		found := false
 		ast.Inspect(st, func(k ast.Node) bool {
@@ -2648,4 +2611,299 @@ func E4InsertAlias(c *core.Ctx, r *core.Report, pkgs []string) {
 	r.Count("E4.insert-alias-functions", funcs)
 	r.Floor("E4.insert-alias-functions", 500)
 	r.Floor("E4.insert-alias-selftest", 4)
+}
+
+// E4ZeroGuardIsDivisor: a zero test that guards a division tests the divisor.
+func E4ZeroGuardIsDivisor(c *core.Ctx, r *core.Report, rel string) {
+	r.Rule("E4.zero-guard-is-divisor", "package text: when a statement list tests `E == 0` and leaves (return) before a later statement of the same list divides by D, and E and D are built from a common variable, the test is the guard of that division and E is D — compared as polynomials over the variables and field selections they mention. In computeAdjustmentRatio the guard `lb.Y-active.Y == 0` marks the line that cannot stretch, the divisor of the ratio; testing `lb.Y == 0` (no stretch since the beginning of the paragraph) lets a glue-less line after any earlier glue divide by zero: its ratio is +Inf clipped to the same value whatever its slack, all such lines rate equal and the breaker returns a non-optimal division")
+	p := c.MustPkg(rel)
+	info := p.TypesInfo
+	n := 0
+	sym := func(e ast.Expr) string {
+		switch x := e.(type) {
+		case *ast.Ident:
+			if _, ok := core.ObjOf(info, x).(*types.Var); ok {
+				return x.Name
+			}
+		case *ast.SelectorExpr:
+			if _, ok := info.Selections[x]; ok {
+				return types.ExprString(x)
+			}
+		}
+		return ""
+	}
+	vars := func(e ast.Expr) map[string]bool {
+		out := map[string]bool{}
+		ast.Inspect(e, func(m ast.Node) bool {
+			switch x := m.(type) {
+			case *ast.SelectorExpr:
+				if s := sym(x); s != "" {
+					out[s] = true
+					return false
+				}
+			case *ast.Ident:
+				if s := sym(x); s != "" {
+					out[s] = true
+				}
+			}
+			return true
+		})
+		return out
+	}
+	for _, fd := range core.AllFuncDecls(p) {
+		if strings.HasSuffix(c.Fset.Position(fd.Pos()).Filename, "_test.go") {
+			continue
+		}
+		fname := rel + "." + core.FuncName(fd)
+		ord := 0
+		ast.Inspect(fd.Body, func(m ast.Node) bool {
+			b, ok := m.(*ast.BlockStmt)
+			if !ok {
+				return true
+			}
+			for i, st := range b.List {
+				is, ok := st.(*ast.IfStmt)
+				if !ok || len(is.Body.List) == 0 {
+					continue
+				}
+				if _, ok := is.Body.List[len(is.Body.List)-1].(*ast.ReturnStmt); !ok {
+					continue
+				}
+				be, ok := core.Unparen(is.Cond).(*ast.BinaryExpr)
+				if !ok || be.Op != token.EQL {
+					continue
+				}
+				var E ast.Expr
+				isZero := func(e ast.Expr) bool {
+					tv, ok := info.Types[e]
+					if !ok || tv.Value == nil {
+						return false
+					}
+					switch tv.Value.Kind() {
+					case constant.Int, constant.Float:
+						return constant.Sign(tv.Value) == 0
+					}
+					return false
+				}
+				if isZero(be.Y) {
+					E = be.X
+				} else if isZero(be.X) {
+					E = be.Y
+				}
+				if E == nil {
+					continue
+				}
+				if bt, ok := info.TypeOf(E).Underlying().(*types.Basic); !ok || bt.Info()&types.IsFloat == 0 {
+					continue
+				}
+				ev := vars(E)
+				// the first later division of the list whose divisor shares a variable with E
+				for _, later := range b.List[i+1:] {
+					var div *ast.BinaryExpr
+					ast.Inspect(later, func(k ast.Node) bool {
+						q, ok := k.(*ast.BinaryExpr)
+						if !ok || q.Op != token.QUO || div != nil {
+							return true
+						}
+						if tv, ok := info.Types[q.Y]; ok && tv.Value != nil {
+							return true
+						}
+						for v := range vars(q.Y) {
+							if ev[v] {
+								div = q
+							}
+						}
+						return true
+					})
+					if div == nil {
+						continue
+					}
+					ord++
+					n++
+					key := fmt.Sprintf("%s|zero test guarding a division #%d", fname, ord)
+					pe, ok1 := polyOf(info, E, sym, nil)
+					pd, ok2 := polyOf(info, div.Y, sym, nil)
+					same := types.ExprString(E) == types.ExprString(div.Y)
+					if ok1 && ok2 {
+						same = polyEqual(pe, pd)
+					}
+					if same {
+						r.OK("E4.zero-guard-is-divisor", key, c.Pos(is.Pos()), types.ExprString(E))
+					} else {
+						r.Fail("E4.zero-guard-is-divisor", key, c.Pos(is.Pos()), fmt.Sprintf("the test `%s == 0` leaves before the division by `%s`, but it is not the divisor that is tested: the division can still be by zero (an infinite or NaN result the caller clips to a constant), and the special case is taken for the wrong inputs", types.ExprString(E), types.ExprString(div.Y)))
+					}
+					break
+				}
+			}
+			return true
+		})
+	}
+	r.Count("E4.zero-guards", n)
+	r.Floor("E4.zero-guards", 1)
+}
+
+// forcedBreakEnv decides the atoms of a condition for an item that is a forced break (a penalty of
+// −Infinity): `X.Type == PenaltyType`, comparisons of `X.Penalty` with −Infinity and with constants.
+func forcedBreakEnv(info *types.Info) func(ast.Expr) tri {
+	return func(e ast.Expr) tri {
+		be, ok := e.(*ast.BinaryExpr)
+		if !ok {
+			return tUnknown
+		}
+		x, y := squash(types.ExprString(be.X)), squash(types.ExprString(be.Y))
+		isPen := func(s string) bool { return strings.HasSuffix(s, ".Penalty") }
+		isNegInf := func(s string) bool { return s == "-Infinity" }
+		switch be.Op {
+		case token.EQL, token.NEQ:
+			if (strings.HasSuffix(x, ".Type") && y == "PenaltyType") || (strings.HasSuffix(y, ".Type") && x == "PenaltyType") {
+				return triOf(be.Op == token.EQL)
+			}
+			if (strings.HasSuffix(x, ".Type") && (y == "BoxType" || y == "GlueType")) || (strings.HasSuffix(y, ".Type") && (x == "BoxType" || x == "GlueType")) {
+				return triOf(be.Op == token.NEQ)
+			}
+		case token.LEQ:
+			if isPen(x) && isNegInf(y) {
+				return tTrue
+			}
+			if isPen(y) { // K <= item.Penalty with K >= 0 or K == -Infinity
+				if isNegInf(x) {
+					return tTrue
+				}
+				if f, ok := constantFloat(core.ConstVal(info, be.X)); ok && f >= 0 {
+					return tFalse
+				}
+			}
+		case token.LSS:
+			if isNegInf(x) && isPen(y) {
+				return tFalse
+			}
+			if isPen(x) && isNegInf(y) {
+				return tFalse
+			}
+		case token.GEQ:
+			if isNegInf(x) && isPen(y) {
+				return tTrue
+			}
+		}
+		return tUnknown
+	}
+}
+
+// E4ForcedBreakForgets: after a forced break no earlier node can be re-activated.
+func E4ForcedBreakForgets(c *core.Ctx, r *core.Report) {
+	r.Rule("E4.forced-break-forgets", "Linebreak keeps the nodes that left the active list so that, when a line cannot fit at all, the least overfull of them can be re-activated as the parent of an emergency break. No line may span a forced break, so once the item loop has passed a penalty of −Infinity none of the nodes deactivated so far may ever be chosen again: every path through one iteration of the item loop, taken with the item a forced break, resets the list of inactive nodes before the iteration ends. Otherwise an empty line before the forced break leaves two candidates with equal overflow, the earlier one has fewer demerits and wins, and the returned breaking skips the forced break")
+	p := c.MustPkg("text")
+	info := p.TypesInfo
+	fd := core.MustFuncDecl(p, "Linebreak")
+	r.Func("text.Linebreak")
+	key := "text.Linebreak|inactive nodes are dropped when the item loop passes a forced break"
+	var loop *ast.RangeStmt
+	ast.Inspect(fd.Body, func(m ast.Node) bool {
+		rs, ok := m.(*ast.RangeStmt)
+		if !ok || loop != nil {
+			return true
+		}
+		has := false
+		ast.Inspect(rs.Body, func(k ast.Node) bool {
+			if call, ok := k.(*ast.CallExpr); ok {
+				if cf := core.CalleeOf(info, call); cf != nil && cf.Name() == "mainLoop" {
+					has = true
+				}
+			}
+			return true
+		})
+		if has {
+			loop = rs
+		}
+		return true
+	})
+	if loop == nil {
+		r.Fail("E4.forced-break-forgets", key, c.Pos(fd.Pos()), "the item loop that calls mainLoop was not found")
+		return
+	}
+	env := forcedBreakEnv(info)
+	resets := func(st ast.Stmt) bool {
+		found := false
+		ast.Inspect(st, func(k ast.Node) bool {
+			switch x := k.(type) {
+			case *ast.AssignStmt:
+				for _, l := range x.Lhs {
+					if se, ok := l.(*ast.SelectorExpr); ok && se.Sel.Name == "inactiveNodes" {
+						found = true
+					}
+				}
+			case *ast.CallExpr:
+				if se, ok := x.Fun.(*ast.SelectorExpr); ok && (se.Sel.Name == "Clear" || se.Sel.Name == "Reset") && strings.HasSuffix(types.ExprString(se.X), "inactiveNodes") {
+					found = true
+				}
+			}
+			return true
+		})
+		return found
+	}
+	bad := ""
+	var walk func(stmts []ast.Stmt, done bool, conds []string, k func(bool, []string))
+	walk = func(stmts []ast.Stmt, done bool, conds []string, k func(bool, []string)) {
+		if bad != "" {
+			return
+		}
+		if len(stmts) == 0 {
+			k(done, conds)
+			return
+		}
+		st, rest := stmts[0], stmts[1:]
+		next := func(d bool, cs []string) { walk(rest, d, cs, k) }
+		switch x := st.(type) {
+		case *ast.ReturnStmt:
+			return
+		case *ast.BranchStmt:
+			if x.Tok == token.GOTO || x.Tok == token.BREAK {
+				return // the search starts over or ends: the list is rebuilt or not used again
+			}
+			if !done {
+				bad = strings.Join(conds, " && ")
+			}
+			return
+		case *ast.BlockStmt:
+			walk(x.List, done, conds, next)
+			return
+		case *ast.ForStmt, *ast.RangeStmt:
+			// inner loops do not end the iteration; a reset inside one is not relied upon
+			walk(rest, done, conds, k)
+			return
+		case *ast.IfStmt:
+			v := evalBool(info, x.Cond, env)
+			if v != tFalse {
+				walk(x.Body.List, done, append(append([]string{}, conds...), c.Src(x.Cond)), next)
+			}
+			if v != tTrue {
+				cs := append(append([]string{}, conds...), "!("+c.Src(x.Cond)+")")
+				switch e := x.Else.(type) {
+				case nil:
+					next(done, cs)
+				case *ast.BlockStmt:
+					walk(e.List, done, cs, next)
+				case *ast.IfStmt:
+					walk([]ast.Stmt{e}, done, cs, next)
+				}
+			}
+			return
+		}
+		if resets(st) {
+			done = true
+		}
+		walk(rest, done, conds, k)
+	}
+	walk(loop.Body.List, false, nil, func(done bool, cs []string) {
+		if !done && bad == "" {
+			bad = strings.Join(cs, " && ")
+		}
+	})
+	if bad == "" {
+		r.OK("E4.forced-break-forgets", key, c.Pos(loop.Pos()), "")
+	} else {
+		r.Fail("E4.forced-break-forgets", key, c.Pos(loop.Pos()), "with a forced break as the item, the iteration can end on the path `"+bad+"` without resetting the inactive nodes: a node from before the forced break can later be re-activated and the breaking then skips the forced break")
+	}
+	r.Count("E4.forced-break-item-loops", 1)
+	r.Floor("E4.forced-break-item-loops", 1)
 }
